@@ -166,8 +166,8 @@ prop('C19', [S.rule_field, S.rule_pep479, S.rule_companion, S.rule_commit, S.rul
      'through operations the noValue sentinel plugs.  Refinement of a list/dict model over histories is not decided.',
      {'A10.field': 6, 'A10.pep479': 8, 'A10.companion': 2, 'A10.single': 8, 'A10.commit': 2, 'A10.bounds': 2, 'A10.schema': 60, 'A10.order': 3})
 
-prop('C20', [M.rule_a11_offset, M.rule_a11_trim, Z.rule_trim_start, M.rule_a11_parse, R.rule_memo_key, R.rule_fraction_pair],
+prop('C20', [M.rule_a11_offset, M.rule_a11_trim, Z.rule_trim_start, M.rule_a11_parse, R.rule_memo_key, R.rule_fraction_pair, R.rule_offset_division],
      'Time text: offset sign taken from a signed quantity, hour/minute fields within range and width (interval '
      'analysis), canonical trim removes only trailing zeros, canonical refusals present, time encoders registered in '
      'CER and DER.  Calendar arithmetic and the fraction convention (symmetric between writer and reader) are not decided.',
-     {'A11.sign': 2, 'A11.width': 3, 'A11.trim': 1, 'A11.canon': 8, 'A5.memo': 1, 'A11.frac': 3})
+     {'A11.sign': 2, 'A11.width': 3, 'A11.trim': 1, 'A11.canon': 8, 'A5.memo': 1, 'A11.frac': 3, 'A11.div': 3})
